@@ -14,3 +14,8 @@ pub fn opaque_string<T>(t: T) -> (r: String) {
 // N15 (ASSUMED): the characters of a String, in order, as a vector (stands for `.chars()`)
 #[verifier::external_body]
 pub fn vx_chars(s: String) -> (r: Vec<char>) { s.chars().collect() }
+// N15 by_ref=1 (ASSUMED): the characters of a string, in order; ASSUMED machine bound: parser strings hold fewer than 2^31 characters
+#[verifier::external_body]
+pub fn vx_chars_ref(s: &String) -> (r: Vec<char>)
+    ensures r@ == s@, r@.len() < 0x7fff_0000,
+{ s.chars().collect() }
